@@ -10,6 +10,8 @@ import builtins
 import os
 import random
 
+import numpy
+
 from mpv import arr, models, faults, syntax, cmdgen
 
 ANCHORS = ['mpilot/commands.py:Command.run', 'mpilot/parser/parser.py:Lexer.t_error', 'mpilot/parser/parser.py:Parser.p_error', 'mpilot/cli/mpilot.py:main', 'mpilot/libraries/eems/csv/io.py:EEMSRead.execute', 'mpilot/exceptions.py:UnexpectedError.__str__', 'mpilot/libraries/eems/exceptions.py:MixedArrayShapes.__str__']   # repository functions the workload must enter (reported as anchors_reached / anchors_missed)
@@ -19,7 +21,7 @@ RULE = ("(a) every fault site (C12 matrix + list/tuple/number given to String an
         "lists nested to 6; (c) CSV faults: empty file, header only, ragged rows, non-numeric cells, missing column, duplicate "
         "headers, quoted newlines, NUL bytes, non-UTF-8 bytes, 1 MB field, nan/inf/1e400 cells; (d) open() raising at the n-th call; "
         "(e) mismatched shapes / weights / empty lists; distinct by (class, fault/edit kind, command, outcome class)")
-REQUIRED_COUNTERS = ["boundary_outcomes_recorded", "mpilot_errors_seen", "cli_runs_checked", "error_messages_rendered", "io_faults_injected", "csv_faults_run", "text_corruptions_run", "cli_subprocess_runs", "netcdf_faults_run", "api_built_fault_models", "api_object_reference_models"]
+REQUIRED_COUNTERS = ["boundary_outcomes_recorded", "mpilot_errors_seen", "cli_runs_checked", "error_messages_rendered", "io_faults_injected", "csv_faults_run", "text_corruptions_run", "cli_subprocess_runs", "netcdf_faults_run", "api_built_fault_models", "api_object_reference_models", "near_type_values_given"]
 ASSUMPTIONS = ["SyntaxError vs MPilotError for malformed text: either is allowed", "command files that are not valid UTF-8, KeyboardInterrupt and MemoryError are out of scope",
                "the CLI's behaviour for SyntaxError is not specified by the property and not judged"]
 
@@ -117,6 +119,9 @@ def cases(ctx):
     for i in range(ctx.n(200, 10000)):
         m = models.gen_model(rng, n_ops=rng.randint(1, 6), sinks=True)
         yield {"kind": "apiobj", "model": m, "mode": ["own", "standalone", "other-program", "standalone"][i % 4], "rseed": rng.randrange(10 ** 9)}
+    # values that are almost of the expected type, given through the programming interface
+    for i in range(ctx.n(160, 6000)):
+        yield {"kind": "apinear", "variant": i * ctx.nshards + ctx.shard, "rseed": rng.randrange(10 ** 9)}
     # (e) run-time faults through API and CLI
     for i in range(ctx.n(300, 15000)):
         yield {"kind": "runtime", "fault": rng.choice(["shape", "shape", "weights", "empty", "k-too-big", "bad-direction", "bad-truest", "dup-raw", "len-mismatch", "equal-thresholds"]),
@@ -271,6 +276,52 @@ class _Outcome(object):
     exc, stage = None, "done"
 
 
+def _near_values():
+    import collections
+    import pathlib
+    from fractions import Fraction
+    from decimal import Decimal
+    return [("0-d-array", numpy.array(3.0)), ("0-d-int-array", numpy.array(2)), ("numpy-float32", numpy.float32(1.5)), ("numpy-int64", numpy.int64(3)), ("numpy-bool", numpy.bool_(True)),
+            ("bytes-ascii", b"in.csv"), ("bytes-latin1", "caf\xe9.csv".encode("latin-1")), ("bytes-utf8", "caf\xe9.csv".encode("utf-8")), ("path", pathlib.Path("in.csv")),
+            ("fraction", Fraction(3, 2)), ("decimal", Decimal("1.5")), ("ordered-dict", collections.OrderedDict([("a", "b")])), ("tuple", ("A", "A")), ("generator-like-range", range(2)),
+            ("set", {"A"}), ("frozenset", frozenset(["A"])), ("complex", 1 + 2j), ("none", None), ("1-element-array", numpy.array([1.5])), ("str-subclass", type("S", (str,), {})("A")),
+            ("int-subclass", type("I", (int,), {})(2)), ("list-subclass", type("L", (list,), {})(["A"])), ("dict-subclass", type("D", (dict,), {})(a="b"))]
+
+
+def run_apinear(ctx, case):
+    """One value that is almost of the expected type is given - through add_command - to one parameter of a command (built-in
+    commands and a user's command with an untyped list): load + run succeeds or fails with an MPilot error."""
+    from mpilot.program import Program
+    vals = _near_values()
+    label, val = vals[case["variant"] % len(vals)]
+    rng = random.Random(case["rseed"])
+    d = ctx.scratch()
+    with open(os.path.join(d, "in.csv"), "w") as f:
+        f.write("X0,X1\n1,2\n3,4\n5,7\n")
+    sites = [("EEMSRead", "R", {"InFileName": val, "InFieldName": "X0"}), ("EEMSRead", "R", {"InFileName": "in.csv", "InFieldName": val}), ("EEMSRead", "R", {"InFileName": "in.csv", "InFieldName": "X0", "MissingVal": val}),
+             ("EEMSRead", "R", {"InFileName": "in.csv", "InFieldName": "X0", "DataType": val}), ("Sum", "S", {"InFieldNames": val}), ("Sum", "S", {"InFieldNames": [val]}), ("Copy", "S", {"InFieldName": val}),
+             ("WeightedSum", "S", {"InFieldNames": ["A"], "Weights": [val]}), ("WeightedSum", "S", {"InFieldNames": ["A"], "Weights": val}), ("CvtToFuzzy", "S", {"InFieldName": "A", "TrueThreshold": val, "FalseThreshold": 0}),
+             ("CvtToFuzzy", "S", {"InFieldName": "A", "Direction": val}), ("NormalizeMeanToMid", "S", {"InFieldName": "A", "IgnoreZeros": val, "NormalValues": [0, 1, 2, 3, 4]}), ("Copy", "S", {"InFieldName": "A", "Metadata": val}),
+             ("dif", "S", {"Anything": [val]}), ("dif", "S", {"Anything": val}), ("dif", "S", {"Anything": [[val], val]}), ("dif", "S", {"OutFileName": val}), ("dif", "S", {"V": val}), ("dif", "S", {"InFieldNames": [val]}),
+             ("EEMSWrite", "W", {"OutFileName": val, "OutFieldNames": ["A"]}), ("PrintVars", "W", {"InFieldNames": ["A"], "OutFileName": val})]
+    cmd, res, args = sites[rng.randrange(len(sites))]
+    ctx.count("near_type_values_given")
+    site = "%s.%s" % (cmd, [k for k, v in args.items() if v is val or (isinstance(v, list) and any(x is val or (isinstance(x, list) and val in x) for x in v))][0])
+    ctx.feature(("apinear", label, site))
+    b = _Outcome()
+    try:
+        b.stage = "load"
+        prog = Program(libraries=arr.CSV_LIBS + ("usercmds",), working_dir=d)
+        prog.add_command(prog.find_command_class("EEMSRead"), "A", {"InFileName": "in.csv", "InFieldName": "X1"})
+        prog.add_command(prog.find_command_class(cmd), res, args)
+        b.stage = "run"
+        prog.run()
+        b.stage = "done"
+    except Exception as e:
+        b.exc = e
+    _classify(ctx, b, "api-value:%s" % label, {"value": label, "site": site})
+
+
 def run_apiobj(ctx, case):
     import copy
     import numpy
@@ -318,7 +369,7 @@ def run_apiobj(ctx, case):
 
 def run_case(ctx, case):
     k = case["kind"]
-    return {"fault": run_fault, "text": run_text, "csv": run_csv, "io": run_io, "runtime": run_runtime, "nc": run_nc, "apiobj": run_apiobj}[k](ctx, case)
+    return {"fault": run_fault, "text": run_text, "csv": run_csv, "io": run_io, "runtime": run_runtime, "nc": run_nc, "apiobj": run_apiobj, "apinear": run_apinear}[k](ctx, case)
 
 
 def run_fault(ctx, case):
